@@ -4,6 +4,8 @@ import (
 	"fmt"
 	"strings"
 
+	"github.com/0chain/common/core/statecache"
+
 	"verif/harness/internal/fw"
 )
 
@@ -115,6 +117,22 @@ func runCacheHistory(c *fw.Ctx, mutable bool, nsteps, maxDepth int) {
 				w.recommit(c, b)
 			}
 		default: // lookups
+			if r.Intn(25) == 0 {
+				// caches made with NewEmpty belong to nobody: what one of them commits, another one must not see
+				ea, eb := statecache.NewEmpty(), statecache.NewEmpty()
+				ek := fmt.Sprintf("empty-%d", step)
+				ea.Set(ek, statecache.String("from-a"))
+				ea.Commit()
+				if v, ok := eb.Get(ek); ok {
+					c.Violate("", "a cache made with NewEmpty() returns %v for a key that only another NewEmpty() cache wrote and committed", v)
+					return
+				}
+				if v, ok := statecache.NewEmpty().Get(ek); ok {
+					c.Violate("", "a fresh NewEmpty() cache returns %v for a key written through an earlier NewEmpty() cache", v)
+					return
+				}
+				c.Count("independent_empty_caches_checked", 1)
+			}
 			switch k := r.Intn(12); {
 			case k >= 10: // through the retained block / transaction cache objects of a committed block
 				var cb []*cblock
@@ -327,7 +345,7 @@ func init() {
 			return 96000
 		},
 		Run: runC06,
-		Floors: map[string]int64{"quiet_chains": 8, "lookups_through_caches_of_committed_blocks": 200000, "late_writes_into_committed_block_caches": 30000, "late_removals_into_committed_block_caches": 3000, "repeated_commits_of_a_committed_block_cache": 8000, "trees": 80000, "lookups": 5000000, "hits": 100000, "misses": 100000, "forks": 10000, "gaps": 1000, "removals": 10000, "trees_with_out_of_order_commits": 1000,
+		Floors: map[string]int64{"quiet_chains": 8, "independent_empty_caches_checked": 20000, "lookups_through_caches_of_committed_blocks": 200000, "late_writes_into_committed_block_caches": 30000, "late_removals_into_committed_block_caches": 3000, "repeated_commits_of_a_committed_block_cache": 8000, "trees": 80000, "lookups": 5000000, "hits": 100000, "misses": 100000, "forks": 10000, "gaps": 1000, "removals": 10000, "trees_with_out_of_order_commits": 1000,
 			"hot_key_chains": 4, "max:versions_of_one_key": 201, "duplicate_commits": 5000, "late_block_hashes": 20000},
 		Assumptions: []string{
 			"uncommitted blocks on a chain are skipped by the model (their writes are private), so the legal set is {miss, nearest committed write}",
@@ -348,7 +366,7 @@ func init() {
 			return 64000
 		},
 		Run:    runC07,
-		Floors: map[string]int64{"lookups_through_caches_of_committed_blocks": 100000, "node_objects_reused_with_an_edited_payload": 50000, "late_writes_into_committed_block_caches": 20000, "late_removals_into_committed_block_caches": 2000, "repeated_commits_of_a_committed_block_cache": 5000, "trees": 50000, "lookups": 3000000, "hits": 100000, "misses": 50000, "removals": 5000, "abandoned": 5000, "must_hit_assertions": 500000},
+		Floors: map[string]int64{"lookups_through_caches_of_committed_blocks": 100000, "independent_empty_caches_checked": 20000, "node_objects_reused_with_an_edited_payload": 50000, "late_writes_into_committed_block_caches": 20000, "late_removals_into_committed_block_caches": 2000, "repeated_commits_of_a_committed_block_cache": 5000, "trees": 50000, "lookups": 3000000, "hits": 100000, "misses": 50000, "removals": 5000, "abandoned": 5000, "must_hit_assertions": 500000},
 		Assumptions: []string{
 			"must-hit assertions only within capacity (see rule); elsewhere miss-or-right-value",
 		},
